@@ -36,7 +36,12 @@ class InputSplitBase : public InputSplit {
     bool Append(InputSplitBase *split, size_t buffer_size);
   };
   // 16 MB
+#if defined(DMLC_CORE_VERIF) && defined(DMLC_CORE_VERIF_BUFFER_WORDS)
+  // verification hook: small chunk buffers so exhaustive small-input runs do not zero-fill 8MB each
+  static const size_t kBufferSize = DMLC_CORE_VERIF_BUFFER_WORDS;
+#else
   static const size_t kBufferSize = 2UL << 20UL;
+#endif
   // destructor
   virtual ~InputSplitBase(void);
   // implement BeforeFirst
